@@ -298,4 +298,6 @@ def run(tier):
         check_history(ck, conc, loads, dumps, h)
         ck.nontrivial(h)
     ck.sample({"edit_history": [a["op"] for a in he[0] if a["a"] == "edit"][:4]})
+    from .. import quoting
+    quoting.run(ck, "C03", tier, loads, impl.dumper)
     return ck.finish(coverage_extra={"slot_probes": len(sl), "walks": len(hs), "edit_histories": len(he)})
